@@ -34,7 +34,7 @@ def store_canon(flavour):
         for n, d in g.nodes(data=True):
             nodes.append((key[n], props_canon(d)))
         for x, y, d in g.edges(data=True):
-            edges.append((tuple(sorted((key[x], key[y]))), props_canon(d)))
+            edges.append((tuple(sorted((key[x], key[y]), key=repr)), props_canon(d)))
     return tuple(sorted(nodes, key=repr)), tuple(sorted(edges, key=repr))
 
 
